@@ -220,8 +220,44 @@ def rule_select(prog: Program) -> RuleResult:
     ok = len(ifs) == 2 and pairs == {("self.left_evaluated", "left"), ("self.right_evaluated", "right")} and not any(i.orelse for i in ifs)
     r.check(ok, "Next._evaluate__#both-branches", site(h), "", "conclusions of whichever side produced the result, independently", "the also-if selector does not select left and right conclusions independently")
     _emission_protocol(r, h, "Next._evaluate__")
+    _dedup_key(prog, r)
     r.check(prog.lookup_super(nx.qual, nx.qual, "_evaluate__").cls.name == "Union", "Next._evaluate__#union-base", site(h), "", "both sides are always evaluated", "also-if does not evaluate both sides")
     return r
+
+
+def _dedup_key(prog: Program, r: RuleResult):
+    """the record of produced conclusions is keyed by the bindings *and* by which conclusions were produced"""
+    sel = prog.cls("conclusion_selector.ConclusionSelector")
+    f = prog.method(sel.qual, "update_conclusion", inherited=False)
+    cparam = f.params[2]
+    keyvars = set()
+    for c in calls_in(f.node):
+        if call_name(c) in ("check", "add") and "concluded_before" in src(c.func) and c.args and isinstance(c.args[0], ast.Name):
+            keyvars.add(c.args[0].id)
+    loopvars = {n.target.id for n in walk_local(f.node) if isinstance(n, (ast.For, ast.comprehension)) and isinstance(n.target, ast.Name) and src(n.iter) == cparam}
+    has_identity = False
+    has_bindings = False
+    for n in walk_local(f.node):
+        vals = []
+        if isinstance(n, ast.Assign):
+            for t in n.targets:
+                if isinstance(t, ast.Subscript) and isinstance(t.value, ast.Name) and t.value.id in keyvars:
+                    vals.append(n.value)
+                if isinstance(t, ast.Name) and t.id in keyvars:
+                    vals.append(n.value)
+        for v in vals:
+            t = src(v)
+            if "bindings" in t:
+                has_bindings = True
+            for x in ast.walk(v):
+                if isinstance(x, ast.Attribute) and x.attr == "_id_" and isinstance(x.value, ast.Name) and x.value.id in loopvars:
+                    has_identity = True
+                if isinstance(x, ast.Call) and isinstance(x.func, ast.Name) and x.func.id == "id" and x.args and isinstance(x.args[0], ast.Name) and x.args[0].id in loopvars | {cparam}:
+                    has_identity = True
+    r.check(bool(keyvars) and has_bindings and has_identity, "ConclusionSelector.update_conclusion#key-includes-conclusions", site(f), "",
+            "the key records the bindings and which conclusions they produced",
+            "the record of produced conclusions is keyed by the bindings alone: a next_rule (also-if) branch over the same variables as the branch before it looks already "
+            "concluded and never fires")
 
 
 def _emission_protocol(r: RuleResult, f: FuncInfo, label: str):
